@@ -336,7 +336,7 @@ func indexKind(k types.FloatKind) int {
 }
 
 func genC16(ctx *fw.Ctx) []fw.Case {
-	n := ctx.Pick(24, 400)
+	n := ctx.Pick(200, 3000)
 	var cases []fw.Case
 	for i := 0; i < n; i++ {
 		i := i
